@@ -1,1 +1,240 @@
-// graph generators (C02/C03/C05)
+//! Dependency-graph projects (C02 / C03 / C05): files f0..fk, an edge i->j rendered as an
+//! `include fj` or as `after fj` + `run cat fj`, with execution markers.
+
+use super::project::{rel_path, Project, MARK};
+use super::Choices;
+use serde::{Deserialize, Serialize};
+
+#[derive(Debug, Clone, Copy, PartialEq, Eq, Hash, Serialize, Deserialize)]
+pub enum EdgeForm {
+    Include,
+    AfterCat,
+}
+
+#[derive(Debug, Clone, PartialEq, Eq, Hash, Serialize, Deserialize)]
+pub struct GraphSpec {
+    pub n: usize,
+    /// (from, to, form) in the order they appear in file `from`
+    pub edges: Vec<(usize, usize, EdgeForm)>,
+    /// a marker command before the first dependency directive of file i
+    pub pre_marker: Vec<bool>,
+    /// directory of file i: 0 = root, 1 = "s", 2 = "s/t"
+    pub dirs: Vec<u8>,
+    /// rich: one marker command per edge, text between edges; lean (default): one command per
+    /// file after its last dependency directive (fewer sub-processes per run)
+    #[serde(default)]
+    pub rich: bool,
+    /// files without dependencies carry no command (saves a sub-process per leaf)
+    #[serde(default)]
+    pub no_solo: bool,
+}
+
+pub fn dir_name(d: u8) -> &'static str {
+    match d {
+        0 => "",
+        1 => "s",
+        _ => "s/t",
+    }
+}
+
+impl GraphSpec {
+    pub fn out_path(&self, i: usize) -> String {
+        let d = dir_name(self.dirs.get(i).copied().unwrap_or(0));
+        if d.is_empty() {
+            format!("f{i}.txt")
+        } else {
+            format!("{d}/f{i}.txt")
+        }
+    }
+    pub fn src_path(&self, i: usize) -> String {
+        format!("{}.txtpp", self.out_path(i))
+    }
+    pub fn out_edges(&self, i: usize) -> Vec<usize> {
+        let mut v = vec![];
+        for (a, b, _) in &self.edges {
+            if *a == i && !v.contains(b) {
+                v.push(*b);
+            }
+        }
+        v
+    }
+    /// files reachable from `from` (including the start nodes)
+    pub fn closure(&self, from: &[usize]) -> Vec<usize> {
+        let mut seen = vec![false; self.n];
+        let mut todo: Vec<usize> = from.to_vec();
+        while let Some(x) = todo.pop() {
+            if x < self.n && !seen[x] {
+                seen[x] = true;
+                todo.extend(self.out_edges(x));
+            }
+        }
+        (0..self.n).filter(|i| seen[*i]).collect()
+    }
+    /// nodes that lie on a cycle (including self-loops)
+    pub fn on_cycle(&self) -> Vec<bool> {
+        (0..self.n)
+            .map(|i| {
+                // can i reach itself through at least one edge?
+                let mut seen = vec![false; self.n];
+                let mut todo = self.out_edges(i);
+                while let Some(x) = todo.pop() {
+                    if x == i {
+                        return true;
+                    }
+                    if !seen[x] {
+                        seen[x] = true;
+                        todo.extend(self.out_edges(x));
+                    }
+                }
+                false
+            })
+            .collect()
+    }
+    /// nodes that can reach a cycle
+    pub fn reaches_cycle(&self) -> Vec<bool> {
+        let cyc = self.on_cycle();
+        (0..self.n).map(|i| self.closure(&[i]).iter().any(|j| cyc[*j])).collect()
+    }
+    pub fn is_acyclic(&self) -> bool {
+        !self.on_cycle().iter().any(|b| *b)
+    }
+
+    pub fn render(&self) -> Project {
+        let mut p = Project::default();
+        p.dirs.insert("d".to_string()); // for aliases like d/../f0.txt
+        for d in &self.dirs {
+            let n = dir_name(*d);
+            if !n.is_empty() {
+                p.dirs.insert(n.to_string());
+            }
+        }
+        for i in 0..self.n {
+            let my_dir = dir_name(self.dirs.get(i).copied().unwrap_or(0));
+            let mut s = String::new();
+            if self.pre_marker.get(i).copied().unwrap_or(false) {
+                s.push_str(&format!("-TXTPP#run echo pre{i} >> {MARK}/log\n"));
+            }
+            s.push_str(&format!("head{i}\n"));
+            let mine: Vec<&(usize, usize, EdgeForm)> = self.edges.iter().filter(|e| e.0 == i).collect();
+            if !self.rich {
+                let mut cats = String::new();
+                for (_, j, form) in mine.iter() {
+                    let target = rel_path(my_dir, &self.out_path(*j));
+                    match form {
+                        EdgeForm::Include => s.push_str(&format!("TXTPP#include {target}\n")),
+                        EdgeForm::AfterCat => {
+                            s.push_str(&format!("TXTPP#after {target}\n"));
+                            cats.push_str(&format!("cat {target}; "));
+                        }
+                    }
+                }
+                if !mine.is_empty() {
+                    s.push_str(&format!("-TXTPP#run {cats}echo post{i}_0 >> {MARK}/log\n"));
+                } else if !self.no_solo {
+                    s.push_str(&format!("-TXTPP#run echo solo{i} >> {MARK}/log\n"));
+                }
+                s.push_str(&format!("tail{i}\n"));
+                p.put(&self.src_path(i), s);
+                continue;
+            }
+            for (k, (_, j, form)) in mine.iter().enumerate() {
+                let target = rel_path(my_dir, &self.out_path(*j));
+                match form {
+                    EdgeForm::Include => {
+                        s.push_str(&format!("TXTPP#include {target}\n"));
+                        s.push_str(&format!("-TXTPP#run echo post{i}_{k} >> {MARK}/log\n"));
+                    }
+                    EdgeForm::AfterCat => {
+                        s.push_str(&format!("TXTPP#after {target}\n"));
+                        s.push_str(&format!("-TXTPP#run cat {target}; echo post{i}_{k} >> {MARK}/log\n"));
+                    }
+                }
+                if k % 2 == 1 {
+                    s.push_str(&format!("mid{i}_{k}\n"));
+                }
+            }
+            if mine.is_empty() {
+                s.push_str(&format!("-TXTPP#run echo solo{i} >> {MARK}/log\n"));
+            }
+            s.push_str(&format!("tail{i}\n"));
+            p.put(&self.src_path(i), s);
+        }
+        p
+    }
+}
+
+/// every digraph on n nodes is a bitmask over n*n possible edges (row-major from*n+to)
+pub fn graph_from_mask(n: usize, mask: u64, forms: u64, pre: u64, dirs: &[u8]) -> GraphSpec {
+    let mut edges = vec![];
+    let mut k = 0;
+    for a in 0..n {
+        for b in 0..n {
+            if mask >> (a * n + b) & 1 == 1 {
+                let form = if forms >> (k % 64) & 1 == 1 { EdgeForm::AfterCat } else { EdgeForm::Include };
+                edges.push((a, b, form));
+                k += 1;
+            }
+        }
+    }
+    GraphSpec {
+        n,
+        edges,
+        pre_marker: (0..n).map(|i| pre >> i & 1 == 1).collect(),
+        dirs: (0..n).map(|i| dirs.get(i).copied().unwrap_or(0)).collect(),
+        rich: false,
+        no_solo: false,
+    }
+}
+
+pub fn mask_is_acyclic(n: usize, mask: u64) -> bool {
+    // Kahn
+    let mut indeg = vec![0usize; n];
+    for a in 0..n {
+        for b in 0..n {
+            if mask >> (a * n + b) & 1 == 1 {
+                if a == b {
+                    return false;
+                }
+                indeg[b] += 1;
+            }
+        }
+    }
+    let mut removed = vec![false; n];
+    for _ in 0..n {
+        let Some(x) = (0..n).find(|i| !removed[*i] && indeg[*i] == 0) else { return false };
+        removed[x] = true;
+        for b in 0..n {
+            if mask >> (x * n + b) & 1 == 1 {
+                indeg[b] -= 1;
+            }
+        }
+    }
+    true
+}
+
+/// random graph from choices; `acyclic` forces edges to go from higher to lower index after a
+/// random relabelling
+pub fn gen_graph(c: &mut Choices, min_n: usize, max_n: usize, acyclic: bool, subdirs: bool) -> GraphSpec {
+    let n = min_n + c.below(max_n - min_n + 1);
+    let density = 1 + c.below(4); // edges with probability density/6
+    // relabelling
+    let mut perm: Vec<usize> = (0..n).collect();
+    for i in (1..n).rev() {
+        let j = c.below(i + 1);
+        perm.swap(i, j);
+    }
+    let mut edges = vec![];
+    for a in 0..n {
+        for b in 0..n {
+            let allowed = if acyclic { a > b } else { true };
+            if allowed && c.chance(density, if a == b { 12 } else { 6 }) {
+                let form = if c.chance(1, 2) { EdgeForm::AfterCat } else { EdgeForm::Include };
+                edges.push((perm[a], perm[b], form));
+            }
+        }
+    }
+    edges.sort_by_key(|e| e.0);
+    let pre_marker = (0..n).map(|_| c.chance(1, 3)).collect();
+    let dirs = (0..n).map(|_| if subdirs { c.weighted(&[3, 1, 1]) as u8 } else { 0 }).collect();
+    GraphSpec { n, edges, pre_marker, dirs, rich: c.chance(1, 2), no_solo: false }
+}
